@@ -117,6 +117,10 @@ def generate(tier, rng):
                         if f > 0 and max(abs(x) for x in vv) >= (1 << (3 * n)):
                             continue
                         yield 'X18 %s %s %s %s' % (fm(s, n, f), o, rng.choice(['rawctor', 'rawset', 'intval']), L(vv))
+                # arrays holding a code at the edge of the 64-bit carriers, rendered (elements go through the integer helpers one by one)
+                for c in [c for c in ((1 << 63), (1 << 64) - 1, (1 << 63) + 5) if lo <= c <= hi]:
+                    yield 'SH %s 1 %s' % (fm(s, n, f), L([c, 1]))
+                    yield 'SB %s %d %s 1 %s' % (fm(s, n, f), rng.choice([0, 1]), rng.choice(['none', '0b']), L([1, c]))
                 # rendering / parsing / bitwise at this width (ops of C11 and C13)
                 for _ in range(2 * reps):
                     c = rng.choice([lo, hi, 0, 1, lo + 1, hi - 1, rng.randint(lo, hi)])
